@@ -16,6 +16,12 @@ from . import common
 
 LEVEL = "exploration"
 H = "name a\nversion 1.0\n\n"
+HEADERS = [H, "name tmpl_2\nversion 0.7\ntarget g (shots=10)\n\n", "name t\nversion 1.10\ntype other (k=2)\n\n", "name t\nversion 2.5\ntarget X8_01\ntype tdm (temporal_modes=2)\n\n"]
+
+
+def header_for(src):
+    """deterministic choice of the metadata block from the source text (every 4th case gets each header)"""
+    return HEADERS[sum(map(ord, src)) % len(HEADERS)]
 
 FORMS = ["{a}", "-{a}", "2*{a}", "{a}+1", "{a}*{b}", "{a}-2*{b}", "{a}/{b}", "{a}**2", "1/{a}", "{a}+{b}*{a}", "{a}*pi", "{a}/3", "({a}+{b})*({a}-{b})", "0.5*{a}-{b}/4"]
 FORMS_FN = ["sqrt({a})", "sin({a})+1", "exp(-{a})*{b}"]
@@ -66,6 +72,8 @@ def cv(v):
         return ("RRT", str(v))
     if isinstance(v, (str, bool)) or v is None:
         return v
+    if isinstance(v, dict):
+        return [(k, cv(x)) for k, x in v.items()]
     try:
         return complex(v)
     except Exception:  # noqa
@@ -90,6 +98,7 @@ def content(p):
 
 
 def judge(src, vv, expect_params):
+    H = header_for(src)
     st, t = common.loads(H + src)
     feat = features(src)
     if st == "exc":
@@ -115,6 +124,10 @@ def judge(src, vv, expect_params):
         return ("C04/instance-still-has-parameters", repr(sorted(inst.parameters)))
     got, ref = content(inst), content(r)
     d = []
+    # the instance is the same program in every other respect: name, version, target, program type
+    for what, a_, b_ in (("name", inst.name, r.name), ("version", inst.version, r.version), ("target", cv(inst.target), cv(r.target)), ("type", cv(inst.programtype), cv(r.programtype))):
+        if a_ != b_:
+            d.append("metadata-%s %r vs %r" % (what, a_, b_))
     if len(got[0]) != len(ref[0]):
         d.append("number of operations")
     else:
@@ -132,7 +145,7 @@ def judge(src, vv, expect_params):
             if not close(got[1][k], ref[1][k], scale):
                 d.append("variable %s %r vs %r" % (k, got[1][k], ref[1][k]))
     if d:
-        cls = "operations" if any(x.startswith("op") or x.startswith("number") for x in d) else "variables"
+        cls = "metadata" if any(x.startswith("metadata") for x in d) else ("operations" if any(x.startswith("op") or x.startswith("number") for x in d) else "variables")
         f = "+".join(k for k in ("array-argument", "list-element", "function-of-parameter", "p-like-name") if feat[k])
         return ("C04/instance-differs-from-substitution:%s%s" % (cls, (":" + f) if f else ""), "; ".join(d)[:400])
     # omitting any one parameter must raise ValueError
